@@ -195,6 +195,86 @@ func (c *Ctx) finish(tier string, seed int, t0 time.Time, extra map[string]any) 
 		}
 	}
 
+	// two views of one tree (see orchestrate): an obligation is decided by the view that can decide it. The first
+	// view hands its obligations over; here (second view) an obligation violated in one view and discharged under
+	// the same key in the other is discharged, and a violated obligation of the first view whose key does not exist
+	// in this view is carried over unchanged.
+	if in := os.Getenv("GRIBILINT_OBL_IN"); in != "" {
+		if b, err := os.ReadFile(in); err == nil {
+			var first []*Obligation
+			if json.Unmarshal(b, &first) == nil {
+				here := map[string]*Obligation{}
+				for _, o := range c.Obs {
+					if prev, ok := here[o.Key]; !ok || (prev.Status == stOK && o.Status != stOK) {
+						here[o.Key] = o
+					}
+				}
+				firstByKey := map[string]*Obligation{}
+				for _, o := range first {
+					if prev, ok := firstByKey[o.Key]; !ok || (prev.Status == stOK && o.Status != stOK) {
+						firstByKey[o.Key] = o
+					}
+				}
+				// rule / function: when the other view has no obligation of exactly this key (a rule names its
+				// obligations by what it found), it has still decided the rule for the function if it has
+				// obligations of that rule for that function and none of them is violated
+				group := func(key string) string {
+					parts := strings.SplitN(key, " / ", 3)
+					if len(parts) < 2 {
+						return key
+					}
+					return parts[0] + " / " + parts[1]
+				}
+				type tally struct{ n, bad int }
+				hereGroup, firstGroup := map[string]*tally{}, map[string]*tally{}
+				count := func(m map[string]*tally, o *Obligation) {
+					g := group(o.Key)
+					if m[g] == nil {
+						m[g] = &tally{}
+					}
+					m[g].n++
+					if o.Status != stOK {
+						m[g].bad++
+					}
+				}
+				for _, o := range c.Obs {
+					count(hereGroup, o)
+				}
+				for _, o := range first {
+					count(firstGroup, o)
+				}
+				for _, o := range c.Obs {
+					if o.Status != stOK {
+						f, ok := firstByKey[o.Key]
+						switch {
+						case ok && f.Status == stOK:
+							o.Detail = "discharged in the first view (helpers called several times kept as calls): " + f.Detail
+							o.Status = stOK
+						case !ok && firstGroup[group(o.Key)] != nil && firstGroup[group(o.Key)].bad == 0:
+							o.Detail = "the first view (helpers called several times kept as calls) decides this rule for this function with all its obligations discharged; here: " + o.Detail
+							o.Status = stOK
+						}
+					}
+				}
+				for _, f := range first {
+					if f.Status != stOK {
+						if _, ok := here[f.Key]; !ok {
+							if t := hereGroup[group(f.Key)]; t != nil && t.bad == 0 {
+								continue // decided, positively, by this view under other obligation names
+							}
+							cp := *f
+							c.Obs = append(c.Obs, &cp)
+						}
+					}
+				}
+			}
+		}
+	}
+	if out := os.Getenv("GRIBILINT_OBL_OUT"); out != "" {
+		if b, err := json.Marshal(c.Obs); err == nil {
+			os.WriteFile(out, b, 0o644)
+		}
+	}
 	var viol, knownHit, discharged int
 	var bad []*Obligation
 	rules := map[string]int{}
